@@ -218,6 +218,7 @@ def durations_on_own_step(ctx, ss):
         for sim_dt, dis_kw in ((1.0, dict(dt=0.5)), (1.0, dict(dt=2.0)), (0.5, dict(dt=1.0)), (1.0, dict(unit='month', dt=1.0)), (1.0, {})):
             W = dict(probe='duration-on-own-step', disease=cls, sim_dt=sim_dt, module=dis_kw)
             kw = dict(beta=0.0, init_prev=1.0, dur_inf=ss.constant(v=ss.dur(4, 'year')))
+            if cls == 'SIS' and dis_kw: kw['dur_inf'] = ss.uniform(low=ss.dur(4, 'year'), high=ss.dur(4.0001, 'year'))      # a distribution with TWO time parameters
             if cls == 'SIR': kw['p_death'] = 0.0
             try:
                 dis = getattr(ss, cls)(**kw, **dis_kw)
